@@ -81,9 +81,8 @@ class World (object):
     self.where = dict(self.cfg["hosts"])      # host -> (sw, port)
     self.moved = False
     self.seen = [dict() for _ in self.cfg["nports"]]     # per switch: mac -> [ports], most recent last
-    # the same, counting only arrivals that were NOT absorbed by a cached flow (the controller cannot learn from
-    # frames it never sees; staleness caused by still-installed flows is what the property's escape clause allows)
-    self.seen_ctl = [dict() for _ in self.cfg["nports"]]
+    # per switch: mac -> was its most recent frame swallowed by a drop flow
+    self.hidden = [dict() for _ in self.cfg["nports"]]
     self.bad = []
     self.tag = 0
 
@@ -122,8 +121,8 @@ class World (object):
     except RuntimeError as e:
       self.fail("loop", str(e)); return ("loop",)
     obs = []
-    for (sw, inp, f, ems, missed) in trace:
-      self.judge(sw, inp, f, ems, missed, d)
+    for (sw, inp, f, ems, missed, absorbed) in trace:
+      self.judge(sw, inp, f, ems, missed, d, absorbed)
       obs.append((sw, inp, sorted(q for q, _ in ems), missed))
     # nothing delivered twice / altered
     seenp = set()
@@ -134,7 +133,7 @@ class World (object):
     self.check_buffers()
     return ("tx", tuple(obs), tuple(sorted(seenp)))
 
-  def judge (self, sw, inp, frame, ems, missed, dkind):
+  def judge (self, sw, inp, frame, ems, missed, dkind, absorbed=None):
     dst, src = frame[:6], frame[6:12]
     seen = self.seen[sw]
     nports = self.cfg["nports"][sw]
@@ -143,11 +142,11 @@ class World (object):
     lst = seen.setdefault(src, [])
     if inp in lst: lst.remove(inp)
     lst.append(inp)
-    ctl_before = list(self.seen_ctl[sw].get(dst, []))
-    if missed:
-      l2 = self.seen_ctl[sw].setdefault(src, [])
-      if inp in l2: l2.remove(inp)
-      l2.append(inp)
+    # was the destination's most recent appearance swallowed by a DROP flow (installed by the controller when a
+    # frame's destination sits on its ingress port; it matches without in_port for 10 s)?  A forwarding flow
+    # cannot hide a move, because its match includes the ingress port.
+    hidden_before = self.hidden[sw].get(dst, False)
+    self.hidden[sw][src] = (absorbed == "drop")
     ports = [q for q, _ in ems]
     where = "switch %d, frame %s->%s in port %d" % (sw + 1, src.hex()[-2:], dst.hex(), inp)
     if inp in ports: self.fail("back-out-ingress", "%s: emitted on its ingress port" % where)
@@ -169,12 +168,11 @@ class World (object):
       return
     if missed:
       # went to the controller: must go to exactly the most recent port (nothing if that is the ingress port)
-      if not ctl_before:
-        return          # every earlier frame from that address was absorbed by a cached flow: not constrained
-      want = [ctl_before[-1]] if ctl_before[-1] != inp else []
+      want = [known_before[-1]] if known_before[-1] != inp else []
       if ports != want:
-        self.fail("known:not-most-recent", "%s: handled by the controller, destination most recently seen (outside cached flows) on port %d (history %r), emitted on %r"
-                  % (where, ctl_before[-1], ctl_before, ports))
+        self.fail("known:not-most-recent" + (":hidden-by-drop-flow" if hidden_before else ""),
+                  "%s: handled by the controller, destination most recently seen on port %d (history %r%s), emitted on %r"
+                  % (where, known_before[-1], known_before, "; its last frame was swallowed by a drop flow" if hidden_before else "", ports))
 
   def check_buffers (self):
     used = self.net.buffers_in_use()
@@ -191,7 +189,7 @@ class World (object):
     for c in self.net.cs.cons:
       learn.append(sorted((str(k), v) for l in self._ls(c) for k, v in l.macToPort.items()))
     return (tabs, learn, [sorted((k, tuple(v)) for k, v in s.items()) for s in self.seen],
-            [sorted((k, tuple(v)) for k, v in s.items()) for s in self.seen_ctl], sorted(self.where.items()),
+            [sorted(s.items()) for s in self.hidden], sorted(self.where.items()),
             self.moved, [tuple(x is not None for x in st.sw._packet_buffer) for st in self.net.sw])
 
   def _ls (self, con):
